@@ -32,8 +32,8 @@ PROPERTY_RULES: Dict[str, List[str]] = {
     "C08": ["LOWER-1", "LOWER-2", "LOWER-3", "LOWER-4", "LOWER-6", "LOWER-12", "LOWER-13", "STORE-10", "ORD-6", "LOWER-17", "LOWER-19", "DISP-2", "LOWER-20", "LOWER-21"],
     "C09": ["TABLE-1", "TABLE-2", "TABLE-3", "TABLE-4", "TABLE-5", "TABLE-6", "ORD-5", "ORD-6", "TABLE-7", "TABLE-8"],
     "C10": ["NAME-5", "DISP-6", "LOWER-5", "LOWER-7", "LOWER-8", "LOWER-9", "LOWER-10", "LOWER-11", "LOWER-15", "STORE-13", "CTRL-12", "LOWER-16", "ORD-6", "LOWER-18"],
-    "C11": ["DISP-1", "DISP-2", "DISP-3", "DISP-4", "ORD-6"],
-    "C12": ["ORD-1", "ORD-2", "ORD-3", "ORD-5", "ORD-6", "TABLE-8"],
+    "C11": ["DISP-1", "DISP-2", "DISP-3", "DISP-4", "ORD-6", "ORD-7"],
+    "C12": ["ORD-1", "ORD-2", "ORD-3", "ORD-5", "ORD-6", "TABLE-8", "ORD-7"],
     "C13": ["QUERY-1", "QUERY-2", "QUERY-3", "QUERY-4", "QUERY-5", "QUERY-6", "QUERY-7", "STORE-12", "TOTAL-4", "TOTAL-6", "TOTAL-7", "QUERY-8", "ORD-6"],
     "C14": ["STORE-3", "STORE-4", "STORE-5", "STORE-9", "CTRL-4", "CTRL-8", "NAME-3", "TOTAL-1", "TOTAL-2", "TOTAL-5", "STORE-11", "STORE-14", "STORE-16", "STORE-19", "CTRL-1", "CTRL-2", "CTRL-9", "CTRL-10"],
     "C15": ["DISP-8", "DISP-9", "ORD-3", "ORD-4", "TOTAL-6", "TOTAL-8", "ATTR-1", "CTRL-12", "DISP-11", "ORD-6", "DISP-12", "CTRL-14"],
